@@ -2,6 +2,7 @@ use ropey::Rope;
 
 use syntax::parser::TextSize;
 
+/// Converts between byte offsets and (line, UTF-16 column) pairs as used by LSP.
 #[derive(Debug, Eq, PartialEq)]
 pub struct LineIndex {
     rope: Rope,
@@ -14,12 +15,47 @@ impl LineIndex {
         }
     }
 
+    /// Zero-based line containing the byte offset `pos`.
     pub fn pos_to_line(&self, pos: TextSize) -> usize {
-        self.rope.char_to_line(pos.into())
+        self.rope.byte_to_line(self.clamp_byte(pos))
     }
 
+    /// Byte offset of the first character of `line`.
     pub fn line_to_pos(&self, line: usize) -> TextSize {
-        let pos = self.rope.line_to_char(line);
+        let pos = self.rope.line_to_byte(self.clamp_line(line));
         TextSize::try_from(pos).expect("line index out of bounds")
+    }
+
+    /// UTF-16 column of the byte offset `pos` within its line.
+    pub fn pos_to_utf16_col(&self, pos: TextSize) -> usize {
+        let byte = self.clamp_byte(pos);
+        let line_start_char = self.rope.line_to_char(self.rope.byte_to_line(byte));
+        let pos_char = self.rope.byte_to_char(byte);
+        self.rope.char_to_utf16_cu(pos_char) - self.rope.char_to_utf16_cu(line_start_char)
+    }
+
+    /// Byte offset of the UTF-16 column `col` of `line`; a column past the end of
+    /// the line means the end of the line (before its terminator).
+    pub fn utf16_col_to_pos(&self, line: usize, col: usize) -> TextSize {
+        let line = self.clamp_line(line);
+        let line_slice = self.rope.line(line);
+        let mut content_chars = line_slice.len_chars();
+        while content_chars > 0 && matches!(line_slice.char(content_chars - 1), '\n' | '\r') {
+            content_chars -= 1;
+        }
+        let line_start_char = self.rope.line_to_char(line);
+        let line_start_cu = self.rope.char_to_utf16_cu(line_start_char);
+        let line_end_cu = self.rope.char_to_utf16_cu(line_start_char + content_chars);
+        let cu = (line_start_cu + col).min(line_end_cu);
+        let pos = self.rope.char_to_byte(self.rope.utf16_cu_to_char(cu));
+        TextSize::try_from(pos).expect("position out of bounds")
+    }
+
+    fn clamp_byte(&self, pos: TextSize) -> usize {
+        usize::from(pos).min(self.rope.len_bytes())
+    }
+
+    fn clamp_line(&self, line: usize) -> usize {
+        line.min(self.rope.len_lines().saturating_sub(1))
     }
 }
